@@ -45,7 +45,16 @@ func writeFingerprints(repo, out string) error {
 		if perr := printer.Fprint(&buf, fset, f); perr != nil {
 			return perr
 		}
-		h := sha256.Sum256(buf.Bytes())
+		// go/printer reproduces blank lines from token positions: drop them, so that adding or removing a
+		// comment line does not change the hash
+		var norm bytes.Buffer
+		for _, line := range bytes.Split(buf.Bytes(), []byte("\n")) {
+			if len(bytes.TrimSpace(line)) > 0 {
+				norm.Write(line)
+				norm.WriteByte('\n')
+			}
+		}
+		h := sha256.Sum256(norm.Bytes())
 		fps[rel(repo, path)] = hex.EncodeToString(h[:])
 		return nil
 	})
